@@ -16,7 +16,35 @@ use crate::config::DEFAULT_SKIP_DOCUMENT_CODE;
 use crate::escaping::Escaper;
 use crate::formatln;
 use crate::lossy_string;
+use crate::newline::BytesNewline;
 use crate::newline::SplitLinesByNewline;
+
+lazy_static! {
+    /// Matches output that would be read back as an expectation with a modifier
+    /// (e.g. `foo (glob)`) or as an exit code (e.g. `[1]`), instead of verbatim.
+    static ref AMBIGUOUS_OUTPUT_LINE: regex::Regex = regex::Regex::new(
+        r"(?:\s\((?:equal|eq|no-eol|escaped|esc|glob|gl|regex|re)?[*+?]?\)|^\[[0-9]+\])$"
+    )
+    .expect("ambiguous output line expression must compile");
+}
+
+/// Renders a line of output as the expectation that describes exactly this line
+pub(crate) fn output_line_expectation(escaper: &Escaper, line: &[u8]) -> String {
+    let eol = line.ends_in_newline();
+    let line = line.trim_newlines();
+    let verbatim = lossy_string!(line);
+    let expectation = escaper.escaped_expectation(line);
+    if expectation != verbatim {
+        // escaped expectations ignore the tailing newline
+        expectation
+    } else if !eol {
+        format!("{verbatim} (no-eol)")
+    } else if AMBIGUOUS_OUTPUT_LINE.is_match(&verbatim) {
+        format!("{verbatim} (equal)")
+    } else {
+        verbatim
+    }
+}
 
 /// Product of a single execution that captures output and status
 #[derive(Clone, PartialEq, Eq)]
@@ -193,19 +221,12 @@ impl OutputStream {
         let prefix = prefix.unwrap_or("");
         let mut out = String::new();
         let bytes: &[u8] = self.into();
-        let lines = bytes.split_at_newline();
-        let ends_in_newline = !bytes.is_empty() && bytes[bytes.len() - 1] == b'\n';
-        for (idx, line) in lines.iter().enumerate() {
-            let expectation = escaper.escaped_expectation(line);
-            let suffix = if !ends_in_newline
-                && !expectation.ends_with(" (escaped)")
-                && idx + 1 == lines.len()
-            {
-                " (no-eol)"
-            } else {
-                ""
-            };
-            out.push_str(&formatln!("{}{}{}", prefix, &expectation, suffix))
+        for line in bytes.split_at_newline() {
+            out.push_str(&formatln!(
+                "{}{}",
+                prefix,
+                output_line_expectation(escaper, line)
+            ))
         }
         out
     }
